@@ -73,11 +73,14 @@ package xpath
 //@   ensures-assumed[cursor-restored] pos(cur(t)) == old(pos(cur(t)))
 //@   ensures-assumed[restart-deterministic] old(pos(cur(t))) == old(ctxp(self)) ==> slen(ref(self), epoch(self)) == slen(ref(self), old(epoch(self))) && forall(i, Int, spos(ref(self), epoch(self), i) == spos(ref(self), old(epoch(self)), i))
 //@   ensures[valtype@C15] valtype(result) || result == nil && is(self, nopQuery)
+//@   ensures[reset@C02] resetOK(self)
+//@   ensures[resets-kids@C02] kidsReset(self)
 
 //@ iface query.Clone() result
 //@   modifies nothing
 //@   ensures[nonnil@C15,C04] result != nil
 //@   ensures[same-type@C15,C04] tagof(result) == tagof(self) || is(self, *cachedChildQuery) && is(result, *childQuery)
+//@   ensures[clone@C04,C05] cloneOK(self, result)
 
 //@ iface query.Properties() result
 //@   modifies nothing
@@ -98,19 +101,23 @@ package xpath
 // Contracts of function-valued fields (every function stored there must conform)
 
 //@ field functionQuery.Func(q, t) result
+//@   preserves heap(F:NodeIterator.*)
 //@   requires t != nil
 //@   ensures[valtype@C15] valtype(result)
 
 //@ field transformFunctionQuery.Func(q, t) result
+//@   preserves heap(F:NodeIterator.*)
 //@   requires q != nil && t != nil
 //@   ensures[nonnil@C15] result != nil
 
 //@ field logicalQuery.Do(t, m, n) result
+//@   preserves heap(F:NodeIterator.*)
 //@   requires t != nil && valtype(m) && valtype(n)
 //@   requires[fresh-streams] is(m, query) && is(n, query) ==> k(m) == 0 && k(n) == 0 && ctxp(n) == pos(cur(t))
 //@   ensures[valtype@C15] valtype(result)
 
 //@ field numericQuery.Do(t, m, n) result
+//@   preserves heap(F:NodeIterator.*)
 //@   requires t != nil && valtype(m) && valtype(n)
 //@   ensures[valtype@C15] valtype(result)
 
@@ -532,6 +539,7 @@ package xpath
 //@ define sameS(q, e1, e2) = slen(ref(q), e1) == slen(ref(q), e2) && forall(i, Int, spos(ref(q), e1, i) == spos(ref(q), e2, i))
 //@ define streamOK(v) = is(v, query) ==> 0 <= k(v) && k(v) <= slen(ref(v), epoch(v))
 //@ field type logical(t, op, m, n) result
+//@   preserves heap(F:NodeIterator.*)
 //@   requires t != nil && valtype(m) && valtype(n)
 //@   requires[fresh-streams] is(m, query) && is(n, query) ==> k(m) == 0 && k(n) == 0 && ctxp(n) == pos(cur(t))
 //@   requires fn(self) == fnid("cmpBooleanBoolean") ==> is(m, bool) && is(n, bool)
@@ -898,10 +906,10 @@ package xpath
 //@ func stringToNumber
 //@   inline
 //@ func (*logicalQuery).Evaluate
-//@   props C15 C07
+//@   props C15 C07 C02
 //@   theory stream
 //@ func (*numericQuery).Evaluate
-//@   props C15 C08
+//@   props C15 C08 C02
 //@   theory stream
 
 //@ define truthOf(v, e) = ite(is(v, bool), as(v, bool), ite(is(v, float64), as(v, float64) != 0 && !isNaN(as(v, float64)), ite(is(v, string), as(v, string) != "", is(v, query) && 0 < slen(ref(v), e))))
@@ -915,3 +923,158 @@ package xpath
 //@   ensures[short-circuit-or@C07] b.IsOr && truthOf(evalv(ref(b.Left), eL), eL) ==> result == box(true) && epoch(b.Right) == old(epoch(b.Right))
 //@   ensures[short-circuit-and@C07] !b.IsOr && !truthOf(evalv(ref(b.Left), eL), eL) ==> result == box(false) && epoch(b.Right) == old(epoch(b.Right))
 //@   ensures[right@C07] (b.IsOr && !truthOf(evalv(ref(b.Left), eL), eL)) || (!b.IsOr && truthOf(evalv(ref(b.Left), eL), eL)) ==> result == box(truthOf(evalv(ref(b.Right), eR), eR))
+
+// ---------------------------------------------------------------------------
+// Purity of a compiled expression (C04/C05) and the reset protocol (C02).
+// Every field of every query type is classified (xvc refuses to run when a field is
+// missing here, so a new field forces a decision):
+//   config  - set when the object is built, copied by Clone, never written afterwards
+//   label   - descriptive only, never read by Select/Evaluate
+//   kids    - sub-queries: Clone yields fresh clones of them
+//   state   - iteration state: zero in a clone, re-zeroed by Evaluate
+//   scratch - assigned before it is read whenever the object starts on a new input
+//   unreset - iteration state that Evaluate leaves alone (reason given)
+
+//@ fields contextQuery: state count
+//@ fields absoluteQuery: state count
+//@ fields ancestorQuery: config Self Predicate; label name; kids Input; state iterator table
+//@ fields attributeQuery: config Predicate; label name; kids Input; state iterator
+//@ fields childQuery: config Predicate; label name; kids Input; scratch posit; state iterator
+//@ fields cachedChildQuery: config Predicate; label name; kids Input; scratch posit; state iterator
+//@ fields descendantQuery: config Self Predicate; label name; kids Input; scratch posit level; state iterator
+//@ fields followingQuery: config Sibling Predicate; kids Input; scratch posit; state iterator
+//@ fields precedingQuery: config Sibling Predicate; kids Input; scratch posit; state iterator
+//@ fields parentQuery: config Predicate; kids Input
+//@ fields selfQuery: config Predicate; kids Input
+//@ fields filterQuery: label NoPosition; kids Input Predicate; scratch posit; state positmap
+//@ fields functionQuery: config Func; kids Input
+//@ fields transformFunctionQuery: config Func; kids Input; state iterator
+//@ fields constantQuery: config Val
+//@ fields groupQuery: kids Input; state posit
+//@ fields logicalQuery: config Do; kids Left Right
+//@ fields numericQuery: config Do; kids Left Right
+//@ fields booleanQuery: config IsOr; kids Left Right; unreset iterator
+//@ fields unionQuery: kids Left Right; state iterator
+//@ fields lastFuncQuery: kids Input; unreset buffer counted
+//@ fields descendantOverDescendantQuery: config MatchSelf Predicate; label name; kids Input; scratch posit currentNode; state level
+//@ fields mergeQuery: kids Input Child; state iterator
+
+//@ define sameKind(a, b) = tagof(b) == tagof(a) || is(a, *cachedChildQuery) && is(b, *childQuery)
+//@ define cloneKid(a, b) = (a == nil && b == nil) || (a != nil && b != nil && sameKind(a, b) && (isFresh(b) || b == a && (is(a, *constantQuery) || is(a, nopQuery))))
+//@ define resetOK(q) = (is(q, *contextQuery) ==> as(q, *contextQuery).count == 0)
+//@+ && (is(q, *absoluteQuery) ==> as(q, *absoluteQuery).count == 0)
+//@+ && (is(q, *ancestorQuery) ==> as(q, *ancestorQuery).iterator == nil && as(q, *ancestorQuery).table == nil)
+//@+ && (is(q, *attributeQuery) ==> as(q, *attributeQuery).iterator == nil)
+//@+ && (is(q, *childQuery) ==> as(q, *childQuery).iterator == nil)
+//@+ && (is(q, *cachedChildQuery) ==> as(q, *cachedChildQuery).iterator == nil)
+//@+ && (is(q, *descendantQuery) ==> as(q, *descendantQuery).iterator == nil)
+//@+ && (is(q, *followingQuery) ==> as(q, *followingQuery).iterator == nil)
+//@+ && (is(q, *precedingQuery) ==> as(q, *precedingQuery).iterator == nil)
+//@+ && (is(q, *filterQuery) ==> as(q, *filterQuery).positmap == nil)
+//@+ && (is(q, *transformFunctionQuery) ==> as(q, *transformFunctionQuery).iterator == nil)
+//@+ && (is(q, *groupQuery) ==> as(q, *groupQuery).posit == 0)
+//@+ && (is(q, *unionQuery) ==> as(q, *unionQuery).iterator == nil)
+//@+ && (is(q, *descendantOverDescendantQuery) ==> as(q, *descendantOverDescendantQuery).level == 0)
+//@+ && (is(q, *mergeQuery) ==> as(q, *mergeQuery).iterator == nil)
+//@ define cloneOK(s, r) = (is(s, *contextQuery) ==> is(r, *contextQuery) && isFresh(r) && as(r, *contextQuery).count == 0)
+//@+ && (is(s, *absoluteQuery) ==> is(r, *absoluteQuery) && isFresh(r) && as(r, *absoluteQuery).count == 0)
+//@+ && (is(s, *ancestorQuery) ==> is(r, *ancestorQuery) && isFresh(r) && as(r, *ancestorQuery).Self == as(s, *ancestorQuery).Self && as(r, *ancestorQuery).Predicate == as(s, *ancestorQuery).Predicate && cloneKid(as(s, *ancestorQuery).Input, as(r, *ancestorQuery).Input) && as(r, *ancestorQuery).iterator == nil && as(r, *ancestorQuery).table == nil)
+//@+ && (is(s, *attributeQuery) ==> is(r, *attributeQuery) && isFresh(r) && as(r, *attributeQuery).Predicate == as(s, *attributeQuery).Predicate && cloneKid(as(s, *attributeQuery).Input, as(r, *attributeQuery).Input) && as(r, *attributeQuery).iterator == nil)
+//@+ && (is(s, *childQuery) ==> is(r, *childQuery) && isFresh(r) && as(r, *childQuery).Predicate == as(s, *childQuery).Predicate && cloneKid(as(s, *childQuery).Input, as(r, *childQuery).Input) && as(r, *childQuery).iterator == nil)
+//@+ && (is(s, *cachedChildQuery) ==> is(r, *childQuery) && isFresh(r) && as(r, *childQuery).Predicate == as(s, *cachedChildQuery).Predicate && cloneKid(as(s, *cachedChildQuery).Input, as(r, *childQuery).Input) && as(r, *childQuery).iterator == nil)
+//@+ && (is(s, *descendantQuery) ==> is(r, *descendantQuery) && isFresh(r) && as(r, *descendantQuery).Self == as(s, *descendantQuery).Self && as(r, *descendantQuery).Predicate == as(s, *descendantQuery).Predicate && cloneKid(as(s, *descendantQuery).Input, as(r, *descendantQuery).Input) && as(r, *descendantQuery).iterator == nil)
+//@+ && (is(s, *followingQuery) ==> is(r, *followingQuery) && isFresh(r) && as(r, *followingQuery).Sibling == as(s, *followingQuery).Sibling && as(r, *followingQuery).Predicate == as(s, *followingQuery).Predicate && cloneKid(as(s, *followingQuery).Input, as(r, *followingQuery).Input) && as(r, *followingQuery).iterator == nil)
+//@+ && (is(s, *precedingQuery) ==> is(r, *precedingQuery) && isFresh(r) && as(r, *precedingQuery).Sibling == as(s, *precedingQuery).Sibling && as(r, *precedingQuery).Predicate == as(s, *precedingQuery).Predicate && cloneKid(as(s, *precedingQuery).Input, as(r, *precedingQuery).Input) && as(r, *precedingQuery).iterator == nil)
+//@+ && (is(s, *parentQuery) ==> is(r, *parentQuery) && isFresh(r) && as(r, *parentQuery).Predicate == as(s, *parentQuery).Predicate && cloneKid(as(s, *parentQuery).Input, as(r, *parentQuery).Input))
+//@+ && (is(s, *selfQuery) ==> is(r, *selfQuery) && isFresh(r) && as(r, *selfQuery).Predicate == as(s, *selfQuery).Predicate && cloneKid(as(s, *selfQuery).Input, as(r, *selfQuery).Input))
+//@+ && (is(s, *filterQuery) ==> is(r, *filterQuery) && isFresh(r) && cloneKid(as(s, *filterQuery).Input, as(r, *filterQuery).Input) && cloneKid(as(s, *filterQuery).Predicate, as(r, *filterQuery).Predicate) && as(r, *filterQuery).positmap == nil)
+//@+ && (is(s, *functionQuery) ==> is(r, *functionQuery) && isFresh(r) && as(r, *functionQuery).Func == as(s, *functionQuery).Func && cloneKid(as(s, *functionQuery).Input, as(r, *functionQuery).Input))
+//@+ && (is(s, *transformFunctionQuery) ==> is(r, *transformFunctionQuery) && isFresh(r) && as(r, *transformFunctionQuery).Func == as(s, *transformFunctionQuery).Func && cloneKid(as(s, *transformFunctionQuery).Input, as(r, *transformFunctionQuery).Input) && as(r, *transformFunctionQuery).iterator == nil)
+//@+ && (is(s, *constantQuery) ==> r == s)
+//@+ && (is(s, *groupQuery) ==> is(r, *groupQuery) && isFresh(r) && cloneKid(as(s, *groupQuery).Input, as(r, *groupQuery).Input) && as(r, *groupQuery).posit == 0)
+//@+ && (is(s, *logicalQuery) ==> is(r, *logicalQuery) && isFresh(r) && as(r, *logicalQuery).Do == as(s, *logicalQuery).Do && cloneKid(as(s, *logicalQuery).Left, as(r, *logicalQuery).Left) && cloneKid(as(s, *logicalQuery).Right, as(r, *logicalQuery).Right))
+//@+ && (is(s, *numericQuery) ==> is(r, *numericQuery) && isFresh(r) && as(r, *numericQuery).Do == as(s, *numericQuery).Do && cloneKid(as(s, *numericQuery).Left, as(r, *numericQuery).Left) && cloneKid(as(s, *numericQuery).Right, as(r, *numericQuery).Right))
+//@+ && (is(s, *booleanQuery) ==> is(r, *booleanQuery) && isFresh(r) && as(r, *booleanQuery).IsOr == as(s, *booleanQuery).IsOr && cloneKid(as(s, *booleanQuery).Left, as(r, *booleanQuery).Left) && cloneKid(as(s, *booleanQuery).Right, as(r, *booleanQuery).Right) && as(r, *booleanQuery).iterator == nil)
+//@+ && (is(s, *unionQuery) ==> is(r, *unionQuery) && isFresh(r) && cloneKid(as(s, *unionQuery).Left, as(r, *unionQuery).Left) && cloneKid(as(s, *unionQuery).Right, as(r, *unionQuery).Right) && as(r, *unionQuery).iterator == nil)
+//@+ && (is(s, *lastFuncQuery) ==> is(r, *lastFuncQuery) && isFresh(r) && cloneKid(as(s, *lastFuncQuery).Input, as(r, *lastFuncQuery).Input) && as(r, *lastFuncQuery).buffer == nil && as(r, *lastFuncQuery).counted == false)
+//@+ && (is(s, *descendantOverDescendantQuery) ==> is(r, *descendantOverDescendantQuery) && isFresh(r) && as(r, *descendantOverDescendantQuery).MatchSelf == as(s, *descendantOverDescendantQuery).MatchSelf && as(r, *descendantOverDescendantQuery).Predicate == as(s, *descendantOverDescendantQuery).Predicate && cloneKid(as(s, *descendantOverDescendantQuery).Input, as(r, *descendantOverDescendantQuery).Input) && as(r, *descendantOverDescendantQuery).level == 0)
+//@+ && (is(s, *mergeQuery) ==> is(r, *mergeQuery) && isFresh(r) && cloneKid(as(s, *mergeQuery).Input, as(r, *mergeQuery).Input) && cloneKid(as(s, *mergeQuery).Child, as(r, *mergeQuery).Child) && as(r, *mergeQuery).iterator == nil)
+//@ define kidsReset(q) = (is(q, *ancestorQuery) ==> epoch(as(q, *ancestorQuery).Input) == old(epoch(as(q, *ancestorQuery).Input)) + 1)
+//@+ && (is(q, *attributeQuery) ==> epoch(as(q, *attributeQuery).Input) == old(epoch(as(q, *attributeQuery).Input)) + 1)
+//@+ && (is(q, *childQuery) ==> epoch(as(q, *childQuery).Input) == old(epoch(as(q, *childQuery).Input)) + 1)
+//@+ && (is(q, *cachedChildQuery) ==> epoch(as(q, *cachedChildQuery).Input) == old(epoch(as(q, *cachedChildQuery).Input)) + 1)
+//@+ && (is(q, *descendantQuery) ==> epoch(as(q, *descendantQuery).Input) == old(epoch(as(q, *descendantQuery).Input)) + 1)
+//@+ && (is(q, *followingQuery) ==> epoch(as(q, *followingQuery).Input) == old(epoch(as(q, *followingQuery).Input)) + 1)
+//@+ && (is(q, *precedingQuery) ==> epoch(as(q, *precedingQuery).Input) == old(epoch(as(q, *precedingQuery).Input)) + 1)
+//@+ && (is(q, *parentQuery) ==> epoch(as(q, *parentQuery).Input) == old(epoch(as(q, *parentQuery).Input)) + 1)
+//@+ && (is(q, *selfQuery) ==> epoch(as(q, *selfQuery).Input) == old(epoch(as(q, *selfQuery).Input)) + 1)
+//@+ && (is(q, *filterQuery) ==> epoch(as(q, *filterQuery).Input) == old(epoch(as(q, *filterQuery).Input)) + 1)
+//@+ && (is(q, *transformFunctionQuery) ==> epoch(as(q, *transformFunctionQuery).Input) == old(epoch(as(q, *transformFunctionQuery).Input)) + 1)
+//@+ && (is(q, *groupQuery) ==> epoch(as(q, *groupQuery).Input) == old(epoch(as(q, *groupQuery).Input)) + 1)
+//@+ && (is(q, *unionQuery) ==> epoch(as(q, *unionQuery).Left) == old(epoch(as(q, *unionQuery).Left)) + 1)
+//@+ && (is(q, *unionQuery) ==> epoch(as(q, *unionQuery).Right) == old(epoch(as(q, *unionQuery).Right)) + 1)
+//@+ && (is(q, *descendantOverDescendantQuery) ==> epoch(as(q, *descendantOverDescendantQuery).Input) == old(epoch(as(q, *descendantOverDescendantQuery).Input)) + 1)
+//@+ && (is(q, *mergeQuery) ==> epoch(as(q, *mergeQuery).Input) == old(epoch(as(q, *mergeQuery).Input)) + 1)
+
+// Evaluate methods: the reset protocol (C02) is stated on the interface contract; they need the stream ghosts.
+//@ func (*contextQuery).Evaluate
+//@   props C15 C02
+//@   theory stream
+//@ func (*absoluteQuery).Evaluate
+//@   props C15 C02
+//@   theory stream
+//@ func (*ancestorQuery).Evaluate
+//@   props C15 C02
+//@   theory stream
+//@ func (*attributeQuery).Evaluate
+//@   props C15 C02
+//@   theory stream
+//@ func (*childQuery).Evaluate
+//@   props C15 C02
+//@   theory stream
+//@ func (*cachedChildQuery).Evaluate
+//@   props C15 C02
+//@   theory stream
+//@ func (*descendantQuery).Evaluate
+//@   props C15 C02
+//@   theory stream
+//@ func (*followingQuery).Evaluate
+//@   props C15 C02
+//@   theory stream
+//@ func (*precedingQuery).Evaluate
+//@   props C15 C02
+//@   theory stream
+//@ func (*parentQuery).Evaluate
+//@   props C15 C02
+//@   theory stream
+//@ func (*selfQuery).Evaluate
+//@   props C15 C02
+//@   theory stream
+//@ func (*filterQuery).Evaluate
+//@   props C15 C02
+//@   theory stream
+//@ func (*functionQuery).Evaluate
+//@   props C15 C02
+//@   theory stream
+//@ func (*transformFunctionQuery).Evaluate
+//@   props C15 C02
+//@   theory stream
+//@ func (*constantQuery).Evaluate
+//@   props C15 C02
+//@   theory stream
+//@ func (*groupQuery).Evaluate
+//@   props C15 C02
+//@   theory stream
+//@ func (*unionQuery).Evaluate
+//@   props C15 C02
+//@   theory stream
+//@   assume[ownership] ref(u.Left) != ref(u.Right)
+//@ func (*lastFuncQuery).Evaluate
+//@   props C15 C02
+//@   theory stream
+//@ func (*descendantOverDescendantQuery).Evaluate
+//@   props C15 C02
+//@   theory stream
+//@ func (*mergeQuery).Evaluate
+//@   props C15 C02
+//@   theory stream
